@@ -34,6 +34,7 @@ type E2EParams struct {
 type E2ESummary struct {
 	Lines     int            `json:"lines"`
 	Steps     int            `json:"steps"`
+	Accepted  int            `json:"accepted"`
 	Scenarios int            `json:"scenarios"`
 	Stats     map[string]int `json:"stats"`
 	Died      bool           `json:"died"`
@@ -134,6 +135,7 @@ func e2eRandWorker(args []string) error {
 			sum.Died = true
 			sum.Lines += w.Lines
 			sum.Steps += w.Steps
+			sum.Accepted += w.Accepted
 			w.Close()
 			w = nil
 		case p.Kill && rng.Intn(3) == 0:
@@ -150,6 +152,7 @@ func e2eRandWorker(args []string) error {
 			// fresh world with another configuration
 			sum.Lines += w.Lines
 			sum.Steps += w.Steps
+			sum.Accepted += w.Accepted
 			w.Close()
 			w = nil
 		}
@@ -158,6 +161,7 @@ func e2eRandWorker(args []string) error {
 	if w != nil {
 		sum.Lines += w.Lines
 		sum.Steps += w.Steps
+			sum.Accepted += w.Accepted
 		w.Close()
 	}
 
